@@ -113,8 +113,9 @@ def g3(ctx):
                         any(is_name(t, kname) for t in s.targets)]
                 vals = {src(s.value) for s in defs}
                 ok = vals == {'cls', '(namespace, cls)'}
-            eargs = [src(a) for a in e.args]
-            ok = ok and eargs[0] == 'cls' and eargs[-1] == 'namespace'
+            from ..bridge import engine_call_args
+            ea_ = engine_call_args(ctx.cxx(), e) or {}
+            ok = ok and src(ea_.get('cls')) == 'cls' and src(ea_.get('namespace')) == 'namespace'
             ctx.check(site + '/same-key', ok,
                       '%s: mirror key is cls (global) / (namespace, cls), the engine gets (cls, ..., namespace)'
                       % key[1],
@@ -284,11 +285,11 @@ def d1(ctx):
     stored = [r for r in reads if any(isinstance(s_, ast.Assign) and s_.value is r for s_ in walk(fn))]
     ctx.require(len(stored) == 1, 'dict_insertion_ordered: %d stored reads of the mode' % len(stored))
     rd = stored[0]
-    kw = {k.arg: k.value for k in rd.keywords}
-    own = (len(rd.args) >= 1 and is_name(rd.args[0], 'namespace') and
-           ((isinstance(kw.get('inherit_global_namespace'), ast.Constant) and
-             kw['inherit_global_namespace'].value is False) or
-            (len(rd.args) >= 2 and isinstance(rd.args[1], ast.Constant) and rd.args[1].value is False)))
+    from ..bridge import engine_call_args
+    rda = engine_call_args(ctx.cxx(), rd) or {}
+    own = (is_name(rda.get('namespace'), 'namespace') and
+           isinstance(rda.get('inherit_global_namespace'), ast.Constant) and
+           rda['inherit_global_namespace'].value is False)
     ctx.check('dict_insertion_ordered/reads-own-flag', own,
               'the previous flag is read for the same namespace with inherit_global_namespace=False',
               'the previous flag is read as `%s`: with inheritance (or for another namespace) the '
@@ -312,18 +313,21 @@ def d1(ctx):
               cfg.dominates(cfg.node_of(rd), cfg.node_of(enter)) and cfg.node_of(rd) != cfg.node_of(enter),
               'read-previous and set-new happen in this order inside one `with %s` block' % LOCK,
               'read-previous and set-new are not in one locked block in that order', mod.loc(enter))
-    ea = [src(a) for a in enter_inner.args]
+    def _ordered(c_):
+        d_ = engine_call_args(ctx.cxx(), c_) or {}
+        return [src(d_[k_]) for k_ in ('mode', 'namespace') if k_ in d_]
+    ea = _ordered(enter_inner)
     # the requested mode: the function's positional parameter, possibly through bool(...) or a
     # local that holds bool(<mode>)
     mp = (fn.args.posonlyargs + fn.args.args)[0].arg if (fn.args.posonlyargs + fn.args.args) else 'mode'
     okmode = ea[:1] and ea[0] in ('bool(%s)' % mp, mp)
-    if ea[:1] and not okmode and isinstance(enter.args[0], ast.Name):
+    if ea[:1] and not okmode and re.fullmatch(r'\w+', ea[0] or ''):
         ds = [s_ for s_ in walk(fn) if isinstance(s_, ast.Assign) and is_name(s_.targets[0], ea[0])]
         okmode = len(ds) == 1 and src(ds[0].value) in ('bool(%s)' % mp, mp)
     ctx.check('dict_insertion_ordered/sets-requested', len(ea) == 2 and ea[1] == 'namespace' and
               bool(okmode),
               'the new mode is set for the same namespace', 'enter sets %s' % ea, mod.loc(enter))
-    ra = [src(a) for a in restore_inner.args]
+    ra = _ordered(restore_inner)
     ctx.check('dict_insertion_ordered/restores-saved', ra == [prev, 'namespace'],
               'the restore writes exactly the saved flag for the same namespace',
               'the restore writes %s (saved value is `%s`, namespace variable is `namespace`)'
@@ -986,7 +990,12 @@ def d4(ctx):
     ctx.require(len(tests) >= 2, 'pytree_node_registry_get: %d mode tests, expected one per lookup form' % len(tests))
     # (a) the mode asked about is the mode of the namespace asked about (the engine adds the
     # inheritance from the global namespace itself)
-    foreign = [c for c in tests if not (len(c.args) == 1 and not c.keywords and is_name(c.args[0], nsp))]
+    from ..bridge import engine_call_args
+
+    def asks_own(c_):
+        d_ = engine_call_args(ctx.cxx(), c_)
+        return d_ is not None and set(d_) == {'namespace'} and is_name(d_['namespace'], nsp)
+    foreign = [c for c in tests if not asks_own(c)]
     ctx.check('registry.get/mode-of-the-asked-namespace', not foreign,
               'every dict-order test in registry.get asks about the namespace parameter',
               'registry.get tests the dict-order mode with `%s`, not with the namespace it was asked about: '
